@@ -467,7 +467,7 @@ theorem reopen_restores_buffer {d : Disk} {b : Array Nat} (h : Coh d) (hb : d.bi
   rw [reload_open h hb]; exact reopen h hb
 
 /-- `get_img()` succeeds on a coherent object, and `reload` is `load ∘ save` -/
-theorem save_ok {d : Disk} (h : Coh d) : ∃ bytes, save d = .ok bytes ∧ reload d = load bytes := by
+theorem save_ok {d : Disk} (h : Coh d) : ∃ bytes, save d = .ok bytes ∧ reload d = load d.src bytes := by
   cases hb : d.bitmap with
   | none => exact ⟨_, by unfold save; rw [flush_closed hb], by unfold reload save; rw [flush_closed hb]⟩
   | some b => exact ⟨_, by unfold save; rw [flush_open h hb], by unfold reload save; rw [flush_open h hb]⟩
@@ -489,7 +489,7 @@ the theorem is applied to, not preserved along modifying operations (it is re-es
 opened: `openBitmap_closed`). -/
 theorem reload_observes_same_partial {d : Disk} (h : Coh d) (hclosed : d.bitmap = none → d.bitmapBlocks = []) {bytes : Bytes}
     (hs : save d = .ok bytes) :
-    let d' := load bytes
+    let d' := load d.src bytes
     (∀ path, (catalog path d').1 = (catalog path d).1) ∧
     (∀ path, (get path d').1 = (get path d).1) ∧
     (statFree d').1 = (statFree d).1 ∧
